@@ -376,6 +376,7 @@ pub fn def() -> PropDef {
                 cases_quick: 60_000,
                 cases_thorough: 300_000,
                 max_shrink_iters: 4000,
+                limit_factor: 1,
                 strategy: || case_strategy(9, 500),
                 check: run_case,
             }),
@@ -385,6 +386,7 @@ pub fn def() -> PropDef {
                 cases_quick: 4_000,
                 cases_thorough: 30_000,
                 max_shrink_iters: 3000,
+                limit_factor: 1,
                 strategy: || case_strategy(12, 3000),
                 check: run_case,
             }),
@@ -394,6 +396,7 @@ pub fn def() -> PropDef {
                 cases_quick: 200,
                 cases_thorough: 1_500,
                 max_shrink_iters: 500,
+                limit_factor: 1,
                 strategy: || case_strategy(16, 1200).prop_filter("lg_k >= 13", |c| c.lg_k >= 13),
                 check: run_case,
             }),
